@@ -7,3 +7,4 @@ open OrxPar
 #print axioms C10_seq_prefix
 #print axioms C10_terminates_fair
 #print axioms C10_terminates_fair_finite
+#print axioms C10_seq_consumes_up_to_the_match
